@@ -2,6 +2,7 @@
 over all option combinations and file-system evolutions); tie: h_c04 finder/manifest + modeld finder/manifest; monitors on the real code."""
 import json, os
 from vlib import *
+from checks import sysmon
 
 def to_replay(fl):
     if fl['kind'] in ('macro_missed', 'digest_depends_on_split', 'reader_flags_differ'):
@@ -23,6 +24,12 @@ def run(ctx):
         ctx.evaluations += s['cases']; ctx.distinct_nontrivial += s['distinct_nontrivial']; ctx.samples += s['samples'][:2]
         ctx.cov[mode] = {k: v for k, v in s.items() if k not in ('monitor_failures', 'samples')}
         monitor_failures(ctx, s['monitor_failures'], findings, f'h_c04 {mode} monitor', to_replay)
+    if cargo_repo_bins(ctx, ('sccache', 'sccache-dist')):
+        for cc, nh in (('/usr/bin/gcc', 6 if ctx.quick() else 60), ('/usr/bin/clang', 3 if ctx.quick() else 30)):
+            res = sysmon.st.run_direct_mode_histories(sysmon.sysroot(ctx, 'c04'), 'c04' + os.path.basename(cc), cc, ctx.seed * 31, nh, 8 if ctx.quick() else 20)
+            sysmon.feed(ctx, res, findings, f'system direct mode {os.path.basename(cc)}')
+    ctx.rules.append('system: preprocessor-cache mode with random option combinations (stat matching, ctime, skip system headers, hash cwd) through a config file, include directories whose names hold digits / spaces, '
+                     '-isystem header; same-size / size-changing / touch / delete+recreate / mtime-restored edits of every header, each request compared with a direct compile; ')
     ctx.rules.append('finder: texts built from whole and broken macro fragments x read splits biased to sizes 1-3, 11-15, 13, 26 (non-trivial = distinct split of a text that holds a macro); '
                      'manifest: 1-3 real header files x 8 option combinations x {none, same-size edit, size edit, edit with restored mtime, touch, delete, rewrite} per header, times recorded or not '
                      '(non-trivial = distinct case in which some header changed)')
